@@ -703,16 +703,33 @@ class Ovld:
     def next(self, *args, **kwargs):
         """Call the next matching method after the caller, in terms of priority or specificity."""
         fr = sys._getframe(1)
-        if not self._compiled and not any(
-            getattr(h, "__code__", None) is fr.f_code
+        # The calling method: the nearest frame that runs one of the table's
+        # methods (a lambda or a generator expression inside a method has a
+        # frame of its own)
+        codes = {
+            getattr(h, "__code__", None)
             for h in getattr(getattr(self, "map", None), "type_tuples", ())
-        ):
+        }
+        caller = fr
+        for _ in range(4):
+            if caller is None or caller.f_code in codes:
+                break
+            caller = caller.f_back
+        if caller is None or caller.f_code not in codes:
+            caller = fr
+        if not self._compiled and caller.f_code not in codes:
             # Build first, like every other reader of the table -- unless the
             # caller is one of the methods this table dispatched to: then the
             # table must not be rebuilt from under it
             self.ensure_compiled()
-        if self.argument_analysis.is_method and "self" in fr.f_locals:
+        fr = caller
+        if (
+            self.argument_analysis.is_method
+            and "self" in fr.f_locals
+            and not (args and args[0] is fr.f_locals["self"])
+        ):
             # self.f.next(x) inside a method: the receiver is the caller's
+            # (unless it is passed explicitly: Cls.f.next(self, x))
             args = (fr.f_locals["self"], *args)
         # The same key as call_next builds (lookup per position, keywords)
         return make_dynamic_call(self)(fr.f_code, *args, **kwargs)
